@@ -18,6 +18,7 @@
  * of the source tree.
  */
 #include "json.h"
+#include <limits>
 
 #include <fstream>
 
@@ -63,7 +64,19 @@ bool Get(const Json &js,int &field_value)
 {
     if (!js.is_number_integer())
         return false;
-    field_value = js.get<int>();
+
+    //! Json 中的整数是64位的，get<int>() 只是简单地截断。超出 int 范围的值不能当成合法的 int
+    if (js.is_number_unsigned()) {
+        auto value = js.get<uint64_t>();
+        if (value > static_cast<uint64_t>(std::numeric_limits<int>::max()))
+            return false;
+        field_value = static_cast<int>(value);
+    } else {
+        auto value = js.get<int64_t>();
+        if (value < std::numeric_limits<int>::min() || value > std::numeric_limits<int>::max())
+            return false;
+        field_value = static_cast<int>(value);
+    }
     return true;
 }
 
